@@ -22,9 +22,13 @@ import (
 // generator produced stays BEFORE and AFTER the bulk, and one ordinary item is put
 // in the MIDDLE of it.
 
-// ScalePool: the threshold-adjacent counts.
-var ScalePool = []int{63, 64, 65, 127, 128, 129, 255, 256, 257, 511, 512, 513, 999, 1000, 1001,
-	1023, 1024, 1025, 2047, 2048, 2049, 4095, 4096, 4097, 8191, 8192, 8193}
+// ScalePool: the threshold-adjacent counts.  rapid draws the first entries of a
+// list (and the last one) far more often than the middle ones, so the order is by
+// how common the threshold is in code and by what a case of that size costs: the
+// thousand and the 1024 first, then the small powers of two, then the neighbours,
+// the large ones last.  (Shrinking therefore moves towards 1000.)
+var ScalePool = []int{1000, 1024, 64, 128, 256, 512, 999, 1001, 1023, 1025, 63, 65, 127, 129, 255, 257, 511, 513,
+	2048, 4096, 8192, 2047, 2049, 4095, 4097, 8191, 8193}
 
 // ScaleBucket names the bucket of a count for the label histogram ("" below 63).
 func ScaleBucket(n int) string {
@@ -69,32 +73,38 @@ type ScaleOpt struct {
 	MaxVDepth  int // nesting depth of an untyped (any) collection value
 	MaxTDepth  int // nesting depth of a typed list(list(...)) value
 	MaxDyn     int // dynamic blocks in one body
+	MaxForEach int // elements of one for_each collection
 	MaxStrUnit int // a long string has N * unit bytes, unit <= MaxStrUnit
 }
 
 // ScaleQuick / ScaleThorough: the cuts of the two tiers.
-var ScaleQuick = ScaleOpt{Items: 6000, MaxBlocks: 2049, MaxAttrs: 1025, MaxFree: 2049, MaxElems: 1025, MaxLabels: 1025,
-	MaxFiles: 1025, MaxDepth: 129, MaxVDepth: 1025, MaxTDepth: 129, MaxDyn: 513, MaxStrUnit: 16}
-var ScaleThorough = ScaleOpt{Items: 40000, MaxBlocks: 8193, MaxAttrs: 2049, MaxFree: 8193, MaxElems: 8193, MaxLabels: 2049,
-	MaxFiles: 2049, MaxDepth: 257, MaxVDepth: 2049, MaxTDepth: 257, MaxDyn: 4097, MaxStrUnit: 128}
+var ScaleQuick = ScaleOpt{Items: 5000, MaxBlocks: 2049, MaxAttrs: 1025, MaxFree: 2049, MaxElems: 1025, MaxLabels: 1025,
+	MaxFiles: 1025, MaxDepth: 129, MaxVDepth: 1025, MaxTDepth: 129, MaxDyn: 513, MaxForEach: 1025, MaxStrUnit: 16}
+var ScaleThorough = ScaleOpt{Items: 6500, MaxBlocks: 4097, MaxAttrs: 2049, MaxFree: 4097, MaxElems: 2049, MaxLabels: 2049,
+	MaxFiles: 2049, MaxDepth: 257, MaxVDepth: 2049, MaxTDepth: 257, MaxDyn: 1025, MaxForEach: 2049, MaxStrUnit: 64}
 
 func drawScaleN(t *rapid.T, label string, max int) int {
-	k := 0
-	for k < len(ScalePool) && ScalePool[k] <= max {
-		k++
+	var pool []int
+	for _, n := range ScalePool {
+		if n <= max {
+			pool = append(pool, n)
+		}
 	}
-	if k == 0 {
-		k = 1
+	if len(pool) == 0 {
+		pool = []int{63}
 	}
-	return rapid.SampledFrom(ScalePool[:k]).Draw(t, label)
+	return rapid.SampledFrom(pool).Draw(t, label)
 }
 
 // scaleDims: the dimensions, weighted.
 var scaleDims = []string{
-	"blocks", "blocks", "blocks", "blocks", "collections", "collections", "collections",
-	"attrs", "attrs", "free-attrs", "elems", "elems", "elems", "object-fields",
-	"labels", "files", "files", "block-depth", "block-depth", "value-depth", "value-depth",
-	"for_each-elems", "for_each-elems", "dynamic-blocks", "dynamic-blocks", "string-bytes", "string-bytes",
+	// (position matters, see ScalePool: about 12% each for the first two entries,
+	// 6% for the next two, 4% for the next four, 2-3% for the others, 5% for the last)
+	"collections", "blocks", "elems", "string-bytes",
+	"attrs", "value-depth", "files", "labels",
+	"for_each-elems", "dynamic-blocks", "block-depth", "free-attrs", "object-fields", "collections", "blocks", "elems",
+	"for_each-elems", "dynamic-blocks", "block-depth", "value-depth", "files", "attrs", "blocks", "collections", "labels", "free-attrs",
+	"blocks",
 }
 
 // ScaleDims lists the dimensions (for tests that force one).
@@ -181,7 +191,7 @@ func GenScale(t *rapid.T, s *BodyS, in *BodyI, opt ScaleOpt, dim string) ScaleS 
 		g.valueDepth()
 	case "for_each-elems":
 		g.out.Dyn = "one"
-		g.blocks(opt.MaxBlocks, rapid.Bool().Draw(t, "scale-collection-attr"), true)
+		g.blocks(opt.MaxForEach, rapid.Bool().Draw(t, "scale-collection-attr"), true)
 	case "dynamic-blocks":
 		g.out.Dyn = "many"
 		g.out.RunCap = rapid.IntRange(1, 3).Draw(t, "scale-runcap")
